@@ -1,13 +1,13 @@
 (* Extraction of the executable model. Directives used: only those of ExtrOcamlBasic and
    ExtrOcamlZBigInt (listed in DESIGN.md section 4); nat stays the inductive type. *)
 From Coq Require Import Extraction ExtrOcamlBasic ExtrOcamlZBigInt.
-From Verif Require Import Model.C14Run Model.Prog Model.C16Run Model.Plonk Model.C12Run Model.C13Run Model.C15Run Model.C05Run Model.C17Run.
+From Verif Require Import Model.C14Run Model.Prog Model.C16Run Model.Plonk Model.C12Run Model.C13Run Model.C15Run Model.C05Run Model.C17Run Model.C02Run Model.C08Run Model.C09Run Model.C10Run Model.C05Run2 Model.C05Run3 Model.C07Run.
 Extraction Language OCaml.
 Extraction "model.ml"
   run_add run_sub run_mul run_addc run_subc run_red96 run_red128 run_red160 run_mac run_neg run_square
   run_canon run_fromi64 run_inv run_ext2mul run_ext4mul run_ext5mul
   run_expu64 run_inv2exp run_batchinv run_ext2inv run_ext4inv run_ext5inv run_ext2frob run_ext4frob
-  run_ext5frob run_ext2sq run_ext4sq run_ext5sq run_const_w run_const_dth
+  run_ext5frob run_ext2sq run_ext4sq run_ext5sq run_const_w run_const_dth run_padd run_psub run_pmul run_pneg run_psquare run_pinterleave_involution
   run_prog run_dedup run_plonkverify run_challenges
   run_cap run_prove run_proveall run_verify run_compress run_decompress run_bcap run_bopen run_bopenall run_bverify run_hashleaf run_twoto1
   run_poseidon run_poseidon_naive run_poseidon_raw run_poseidon_spec run_poseidon_fast run_mds_layer run_partial_rounds run_hash_no_pad run_hash_n_to_m run_two_to_one run_hash_or_noop run_hash_pad run_challenger run_rchallenger run_challenger_x
@@ -18,4 +18,8 @@ Extraction "model.ml"
   run_enc_openings run_enc_verifieronly run_enc_proof
   run_dec_u8 run_dec_u32 run_dec_usize run_dec_bool run_dec_field run_dec_ext run_dec_hash run_dec_cap
   run_dec_mproof run_dec_usizevec run_dec_strategy run_dec_friconfig run_dec_friparams run_dec_circuitconfig
-  run_dec_verifieronly run_dec_openings run_dec_proof.
+  run_dec_verifieronly run_dec_openings run_dec_proof
+  run_cpp run_lkc run_clp
+  run_l0lastb run_l0last run_consumer run_sat run_vanish run_starkid run_lkcols run_psums run_lkeval run_ctleval run_ctlsum
+  run_arity_bits run_friprove
+  run_gate_evalbase run_gate_basevsext run_gate_evalext run_gate_generate run_gate_genguard run_gate_pinned run_gate_sizes run_gate_written run_gate_lowdeg run_gate_circuit_agrees run_gate_absdeg run_gate_filter run_gate_evalfiltered run_gate_cosetnew run_gate_subgroup.
